@@ -15,7 +15,7 @@ func init() {
 	register(&PropDoc{
 		ID:         "C19",
 		Modules:    []string{"sdk"},
-		NotDecided: "associativity/idempotence as algebra (they follow from the attribute set semantics of C05, itself only partly decided); percent-decoding of OTEL_RESOURCE_ATTRIBUTES (library + string handling); equal map identities beyond delegation to attribute.Set.",
+		NotDecided: "associativity/idempotence as algebra (they follow from the attribute set semantics of C05, itself only partly decided); percent-decoding of OTEL_RESOURCE_ATTRIBUTES itself (net/url; decided: the stored value is the decoder's output unchanged); equal map identities beyond delegation to attribute.Set.",
 		Fn:         c19,
 	})
 }
